@@ -1154,8 +1154,8 @@ def rotation_cases(draw):
         return [serial[0], draw(st.integers(0, maxpad))]
     init = {}
     for b in bases:
-        if draw(st.integers(0, 5)) > 0:
-            init[b] = None if draw(st.integers(0, 9)) == 0 else fresh()
+        if draw(st.integers(0, 5)) < 5:
+            init[b] = None if draw(st.integers(0, 9)) == 9 else fresh()
         for k in sorted(draw(st.sets(st.integers(1, 7), max_size=5))):
             init[f"{b}.{k}"] = fresh()
         for sfx in draw(st.lists(st.sampled_from(NOISE_SUFFIX), max_size=2, unique=True)):
@@ -1166,8 +1166,8 @@ def rotation_cases(draw):
             init[extra] = fresh()
     model = {n: blob(s) for n, s in init.items()}
     ops = []
-    for _ in range(draw(st.integers(1, 8))):
-        kind = draw(st.sampled_from(["append", "append", "rotate", "rotate", "rotate", "rotate", "rotate", "dry"]))
+    for _ in range(draw(st.integers(2, 9))):
+        kind = draw(st.sampled_from(["rotate", "append", "append", "rotate", "rotate", "rotate", "rotate", "dry"]))
         if kind == "append":
             b = draw(st.sampled_from(bases))
             spec = fresh(60)
@@ -1177,9 +1177,9 @@ def rotation_cases(draw):
         live = [b for b in bases if b in model]
         sizes = sorted({len(model[b]) for b in live})
         bound = [s + d for s in sizes for d in (-1, 0, 1) if s + d >= 0]
-        max_bytes = draw(st.one_of(st.sampled_from(bound or [1]), st.sampled_from(bound or [1]), st.integers(0, 120),
-                                   st.sampled_from([0, 1, (sizes or [1])[0]])))
-        backups = draw(st.sampled_from([1, 1, 2, 2, 2, 3, 3, 3, 4, 6, 0, -1]))
+        max_bytes = draw(st.one_of(st.sampled_from([0, 1, (sizes or [1])[0]]), st.sampled_from(bound or [1]),
+                                   st.sampled_from(bound or [1]), st.integers(0, 120)))
+        backups = draw(st.sampled_from([2, 1, 1, 2, 2, 3, 3, 3, 4, 6, 0, -1]))
         via = draw(st.sampled_from(["main", "main", "cli", "one"]))
         pattern = draw(st.sampled_from(["*.jsonl", "*.jsonl", "a*.jsonl", "?.jsonl"] + bases))
         if via == "one":
@@ -1499,15 +1499,15 @@ def _replay(fn):
 
 
 SUBCHECKS = [
-    Sub("append", sub_append, quick={"n": 400}, thorough={"n": 3200}, shards_quick=4, shards_thorough=16,
+    Sub("append", sub_append, quick={"n": 300}, thorough={"n": 3200}, shards_quick=4, shards_thorough=16,
         replay=_replay(check_append)),
     Sub("append_concurrent", sub_append_concurrent, quick={"rounds": 15, "recs": 30},
         thorough={"rounds": 100, "recs": 60}, shards_quick=4, shards_thorough=16, replay=_replay(run_round)),
     Sub("normalize", sub_normalize, quick={"n": 500}, thorough={"n": 3200}, shards_quick=4, shards_thorough=16,
         replay=_replay(check_norm)),
-    Sub("stager_sort", sub_stager_sort, quick={"n": 250}, thorough={"n": 2500}, shards_quick=2, shards_thorough=8,
+    Sub("stager_sort", sub_stager_sort, quick={"n": 200}, thorough={"n": 2500}, shards_quick=2, shards_thorough=8,
         replay=_replay(check_sort)),
-    Sub("stager_protocol", sub_stager_protocol, quick={"n": 150}, thorough={"n": 1500}, shards_quick=4,
+    Sub("stager_protocol", sub_stager_protocol, quick={"n": 100}, thorough={"n": 1500}, shards_quick=4,
         shards_thorough=16, replay=_replay(check_protocol)),
     Sub("stager_driver", sub_stager_driver, quick={"n": 60}, thorough={"n": 600}, shards_quick=4, shards_thorough=16,
         replay=_replay(check_driver)),
